@@ -174,10 +174,24 @@ def _freeze():
     gc.freeze()
 
 
+def _limit_memory():
+    """a worker (and everything it starts) that grows beyond all reason ends with MemoryError / a harness error
+    instead of taking the machine down"""
+    try:
+        import resource
+        gb = float(os.environ.get('ZTV_MEM_LIMIT_GB', '8'))
+        if gb > 0:
+            lim = int(gb * (1 << 30))
+            resource.setrlimit(resource.RLIMIT_AS, (lim, lim))
+    except Exception:  # noqa: BLE001
+        pass
+
+
 def worker_main(argv):
     prop_id, tier, seed, w, nworkers, outfile = argv
     seed, w, nworkers = int(seed), int(w), int(nworkers)
     boot.bootstrap()
+    _limit_memory()
     result = {'ok': False}
     stats = Stats()
     try:
